@@ -361,7 +361,7 @@ fn case_strategy() -> proptest::strategy::BoxedStrategy<DCase> {
 pub fn check(tier: Tier) -> i32 {
     let ctx = Ctx::new("C11", tier);
     replay_corpus::<DCase, _>(&ctx, run_case);
-    drive(&ctx, "main", tier.pick(1000, 15000), case_strategy, run_case);
+    drive(&ctx, "main", tier.pick(2000, 20000), case_strategy, run_case);
     cleanup_process_scratch();
     ctx.finish(
         "exploration",
